@@ -665,3 +665,82 @@ Proof.
   destruct (lookup r k) as [prev|]; [|reflexivity].
   destruct (bytes_eqb (o_proto prev) self); reflexivity.
 Qed.
+
+(* ---------- legal sequential histories as lists of (operation, result) ---------- *)
+Fixpoint legal_from (r : registry) (l : list (op * ret)) : Prop :=
+  match l with
+  | [] => True
+  | (o, x) :: t => snd (reg_step r o) = x /\ legal_from (fst (reg_step r o)) t
+  end.
+Definition state_after (r : registry) (l : list (op * ret)) : registry := fst (reg_run r (map fst l)).
+
+Lemma legal_from_run l : forall r, legal_from r l -> snd (reg_run r (map fst l)) = map snd l.
+Proof.
+  induction l as [|[o x] t IH]; intros r H; [reflexivity|].
+  cbn [map fst snd]. rewrite reg_run_cons. cbn [snd]. destruct H as [H1 H2]. rewrite H1, (IH _ H2). reflexivity.
+Qed.
+Lemma legal_from_app a b : forall r,
+  legal_from r (a ++ b) <-> legal_from r a /\ legal_from (state_after r a) b.
+Proof.
+  induction a as [|[o x] t IH]; intros r; unfold state_after in *.
+  - simpl. tauto.
+  - cbn [app legal_from map fst]. rewrite reg_run_cons. cbn [fst]. rewrite IH. tauto.
+Qed.
+Lemma state_after_ok r l : reg_ok r -> reg_ok (state_after r l).
+Proof. apply reg_run_ok. Qed.
+Lemma combine_map_fst_snd {A B} (l : list (A * B)) : combine (map fst l) (map snd l) = l.
+Proof. induction l as [|[a b] t IH]; simpl; [|rewrite IH]; reflexivity. Qed.
+
+(* In a legal history a session is reported as displaced from a tuple twice only if it claimed the
+   tuple again in between: every displacement is reported once. *)
+Lemma legal_reported_once pre k o1 p1 mid o2 p2 post :
+  legal_from new_registry (pre ++ (OClaim k o1, ROwner p1) :: mid ++ (OClaim k o2, ROwner p2) :: post) ->
+  same_id p2 p1 = true ->
+  exists ox, In ox mid /\ claim_by k p1 (fst ox) = true.
+Proof.
+  intros HL Hs.
+  apply legal_from_app in HL. destruct HL as [_ HL]. cbn [legal_from] in HL. destruct HL as [H1 HL].
+  change (mid ++ (OClaim k o2, ROwner p2) :: post) with (mid ++ [(OClaim k o2, ROwner p2)] ++ post) in HL.
+  rewrite app_assoc in HL. apply legal_from_app in HL. destruct HL as [HL _].
+  set (r1 := state_after new_registry pre) in *.
+  set (r2 := fst (reg_step r1 (OClaim k o1))) in *.
+  set (l := mid ++ [(OClaim k o2, ROwner p2)]) in *.
+  destruct (existsb (fun ox => claim_by k p1 (fst ox)) mid) eqn:Ex.
+  { apply existsb_exists in Ex. exact Ex. }
+  exfalso.
+  (* the second reporting claim is not a claim by p1's session *)
+  assert (Hc2 : claim_by k p1 (OClaim k o2) = false).
+  { simpl. rewrite key_eqb_refl. simpl. destruct (same_id o2 p1) eqn:E; [|reflexivity]. exfalso.
+    pose proof HL as HL2. unfold l in HL2. apply legal_from_app in HL2. destruct HL2 as [_ HL2].
+    cbn [legal_from] in HL2. destruct HL2 as [HL2 _].
+    apply claim_reports_iff in HL2. destruct HL2 as [_ HL2].
+    assert (same_id p2 o2 = true).
+    { eapply same_id_trans; [exact Hs|]. rewrite same_id_sym. exact E. }
+    congruence. }
+  assert (Hall : forallb (fun x => negb (claim_by k p1 x)) (map fst l) = true).
+  { unfold l. rewrite map_app, forallb_app. cbn [map fst forallb]. rewrite Hc2. simpl. rewrite andb_true_r.
+    rewrite forallb_forall. intros x Hx. apply in_map_iff in Hx. destruct Hx as [ox [<- Hin]].
+    apply negb_true_iff.
+    destruct (claim_by k p1 (fst ox)) eqn:E; [|reflexivity].
+    assert (existsb (fun ox => claim_by k p1 (fst ox)) mid = true) by (apply existsb_exists; eauto). congruence. }
+  destruct (displaced_reported_once (map fst pre) k o1 p1 (map fst l) H1) as [_ [_ [_ [_ Hrep]]]].
+  specialize (Hrep Hall). unfold r2, r1, state_after in HL.
+  rewrite (legal_from_run l _ HL), combine_map_fst_snd in Hrep.
+  rewrite forallb_forall in Hrep.
+  specialize (Hrep (OClaim k o2, ROwner p2)).
+  assert (In (OClaim k o2, ROwner p2) l) by (unfold l; apply in_or_app; right; left; reflexivity).
+  specialize (Hrep H). simpl in Hrep. rewrite key_eqb_refl, Hs in Hrep. discriminate.
+Qed.
+
+(* ... and every displacement IS reported, truthfully: a claim in a legal history returns p exactly
+   when p was the stored owner of the tuple at that point and is another session *)
+Lemma legal_claim_reports pre k o x post :
+  legal_from new_registry (pre ++ (OClaim k o, x) :: post) ->
+  x = match lookup (state_after new_registry pre) k with
+      | Some p => if same_id p o then RNil else ROwner p
+      | None => RNil
+      end.
+Proof.
+  intros HL. apply legal_from_app in HL. destruct HL as [_ HL]. cbn [legal_from] in HL. destruct HL as [H1 _].
+  rewrite <- H1, reg_step_ret, lookup_get. reflexivity.
+Qed.
